@@ -17,7 +17,8 @@ CHECKS = {
              "Exhaustive within the budgets, seeded random walks beyond. Design level: spec/Simplify.tla models the "
              "simplifier as a rewriting system (one rule per case of the implementation, capture-avoiding substitution) "
              "and TLC checks Preserve and Scoped on every reachable term of every program of the bounded grammar; with "
-             "the deviation switch Naive = TRUE it must (and does) find the capture counterexample.",
+             "the deviation switch Naive = TRUE it must (and does) find the capture counterexample."
+             " Later families: operator lambdas with a defaulted further parameter, called lambdas whose parameter is named like a free name of their argument, Where / Select moved under a SelectMany binder inside a called lambda, called lambdas with positional-only / keyword-only / star parameters (Python's full binding in Sem.EvalCalledLambdaG), dictionary literals that repeat a key.",
         ref="DESIGN.md 6 (C02), 3.2-3.4, 4",
         technique="TLA+ term algebra + denotational semantics; TLC-generated programs replayed into the real "
                   "simplifier; TLC trace validation of (in,out) pairs against the relational spec"),
@@ -26,7 +27,8 @@ CHECKS = {
              "dict, nested, packaged sequences) and whose later stages only project with constants; the real simplifier "
              "output is judged by TLC: no more packaging nodes than the final stage's result expression has and no "
              "constant projection of a literal left (ShapeOK), plus C02's clauses. Design level: TLC checks "
-             "NormalFormShape on every normal form of spec/Simplify.tla over the chain family.",
+             "NormalFormShape on every normal form of spec/Simplify.tla over the chain family."
+             " The shape clause counts the packaging of the VALUE of the result expression (Passes.ResTerm: a projection of a package, or of the first element of a packaged sequence, selects the component); family chainf adds First / SelectMany / projections of First(seq) to the chains.",
         ref="DESIGN.md 6 (C14)",
         technique="TLC-generated packaging chains replayed into the real simplifier; TLC trace validation of the "
                   "normal-form shape predicate"),
@@ -36,7 +38,8 @@ CHECKS = {
              "unparses and compiles and preserves meaning, or raised FuncADLIndexError where an out-of-range constant "
              "index exists; any other exception or a timeout (CPU time) is a rejection. Design level: TLC checks on "
              "spec/Simplify.tla that every reachable term is well-formed and bounded and (liveness, weak fairness) that "
-             "rewriting terminates.",
+             "rewriting terminates."
+             " The families with called lambdas beyond plain parameters (betav) and fresh-name collisions (corea) are part of this check too.",
         ref="DESIGN.md 6 (C18)",
         technique="TLC-generated programs replayed into the real simplifier under a per-case timeout; TLC trace "
                   "validation of totality / well-formedness clauses"),
@@ -53,7 +56,8 @@ CHECKS = {
         text="TLC enumerates queries mixing method-form and function-form operator calls at all depths (incl. non-operator "
              "methods of the same shape and keyword arguments); the real change_extension_functions_to_calls output is "
              "judged by TLC: out = ToFunctionForm(in) exactly, no method-form operator left, second application is the "
-             "identity, and Eval(out) = Eval(in) on every model dataset.",
+             "identity, and Eval(out) = Eval(in) on every model dataset."
+             " Family methb: operators inside a callee that is a called lambda, a subscripted table of functions or a call result.",
         ref="DESIGN.md 6 (C17)",
         technique="TLC-generated mixed-form queries replayed into the real pass; TLC trace validation against the exact "
                   "rewrite spec plus semantic equality"),
@@ -61,7 +65,8 @@ CHECKS = {
         text="TLC enumerates expressions with the five shortcut names in call, method, nested, inside-lambda, bare and "
              "wrong-arity positions; the real aggregate_node_transformer output is judged by TLC: skeleton equal outside "
              "lowered calls, no one-argument shortcut left, each produced fold evaluated by Sem on all 40 integer "
-             "sequences of length <= 3 over {-2,0,3} equals len/sum/max0/min0, and Eval equality on the model datasets.",
+             "sequences of length <= 3 over {-2,0,3} equals len/sum/max0/min0, and Eval equality on the model datasets."
+             " Shortcut names called with keyword arguments (must be left alone) and lambda parameters named like a shortcut (family aggs) are included.",
         ref="DESIGN.md 6 (C19)",
         technique="TLC-generated expressions replayed into the real pass; TLC trace validation (skeleton match, fold "
                   "evaluation on all small integer sequences, semantic equality)"),
@@ -72,7 +77,8 @@ CHECKS = {
              "abstract design (Immutable, ImmutableStep) for all histories up to the bound, exports every maximal "
              "history (BFS) plus random deeper ones, the harness replays them on real EventDataset/ObjectStream objects "
              "and TLC (TraceStreams.tla) validates after EVERY step that every previously created stream still shows "
-             "its creation-time AST and item type.",
+             "its creation-time AST and item type."
+             " The lambda pool includes a keyword argument whose value is rewritten on typed datasets; every 4th history hands over (shared) ast objects at every step.",
         ref="DESIGN.md 6 (C11), 3.10",
         technique="TLC model checking of the Streams heap model + TLC-generated histories replayed on the real objects "
                   "+ TLC trace validation of the full projected state after every step"),
@@ -83,7 +89,8 @@ CHECKS = {
              "exported histories are replayed with real asyncio tasks whose executor futures are completed in TLC's "
              "order, and TLC validates per step: no executor call while building, exactly one call on value_async, on "
              "the root dataset's executor (or the override), with RemoveEmptyMD(view) and the title, and that the "
-             "caller gets exactly the value / exception of its own call.",
+             "caller gets exactly the value / exception of its own call."
+             " Every other history awaits its answered-at-once calls one after the other inside one long-lived coroutine (one context), the others through the synchronous value().",
         ref="DESIGN.md 6 (C12), 3.10",
         technique="TLC model checking over all schedules + deterministic asyncio replay of TLC's schedules + TLC trace "
                   "validation of executor log and deliveries"),
@@ -92,7 +99,8 @@ CHECKS = {
              "values, consecutive calls, branching). TLC checks QmdOK (lookup = last write on the stream's own path) on "
              "the heap model; exported histories are replayed and TLC validates after every step the lookup of every key "
              "on every live stream against the ghost map, and that the AST, dump and hash the executor receives equal "
-             "those of a shadow chain built without any QMetaData.",
+             "those of a shadow chain built without any QMetaData."
+             " Focus qmdpath: all derivation paths of 7 (thorough: 9) Select / QMetaData steps on one key.",
         ref="DESIGN.md 6 (C16), 3.10",
         technique="TLC model checking of the QMetaData heap model + replayed histories + TLC trace validation of all "
                   "lookups and of executor AST/dump/hash against a QMetaData-free shadow chain"),
@@ -103,7 +111,8 @@ CHECKS = {
              "metadata attributes on every node, nodes constructed directly, another process with another "
              "PYTHONHASHSEED, the fluent API with str / ast / callable lambdas, the fluent API with QMetaData between "
              "the steps) and the real (term(ast), calc_ast_hash(ast)) table is judged by TLC (TraceHash.tla): "
-             "Stable (one hash per structure) and Sensitive (one structure per hash) over the whole table.",
+             "Stable (one hash per structure) and Sensitive (one structure per hash) over the whole table."
+             " A query that cannot be hashed at all is a violation of its own (clause Defined); edits include characters beyond Latin-1 and beyond the BMP.",
         ref="DESIGN.md 6 (C20)",
         technique="TLC-generated base queries and single edits; real hashes recorded along 9 construction routes; TLC "
                   "trace validation of the bijection structure <-> hash"),
@@ -114,7 +123,8 @@ CHECKS = {
              "decorated from a pool containing Python's own ast field names; each is given to Select, SelectMany and "
              "Where of an untyped dataset as str, ast and real callable, and TLC (TraceTyped.JudgeUntyped) decides: the "
              "emitted lambda is structurally the given one, or the call raised ValueError and TypeFollow.Trigger holds "
-             "(designed refusals, over-approximated); any other exception class is a rejection.",
+             "(designed refusals, over-approximated); any other exception class is a rejection."
+             " Unhashable subscript keys of dictionary literals and calls whose function is a subscript (e.a[1](x)) on untyped receivers are part of the grammar.",
         ref="DESIGN.md 6 (C10), A.4",
         technique="TLC-generated expression grammar replayed through the real operators (3 supplies); TLC trace "
                   "validation of outcome in Allowed(expr)"),
@@ -126,7 +136,8 @@ CHECKS = {
              "real operators and TLC (TraceTyped.JudgeCall) compares the emitted call with TypeFollow.Normalized: all "
              "parameters positional in declaration order, no keyword left, ValueError iff a required parameter is "
              "missing, stream operators inside lambdas keep exactly the user's arguments. TypeFollow's binding is itself "
-             "cross-checked against inspect.Signature.bind on every case.",
+             "cross-checked against inspect.Signature.bind on every case."
+             " Signatures include keyword-only parameters (given by keyword, emitted at their position).",
         ref="DESIGN.md 6 (C07)",
         technique="TLC-enumerated signatures x call shapes x placements rendered to real classes; TLC trace validation "
                   "of the emitted call against the specification's Python binding (cross-checked with inspect)"),
@@ -137,7 +148,8 @@ CHECKS = {
              "methods without return annotation. spec/GenTypes.tla runs the follower as a transition system (each step "
              "applies one rule that fits the current type, inside and across <= 3 stream operators); real classes are "
              "generated from the exported class model and TLC compares every observed item_type (as a type term) and "
-             "every Where refusal with the specification.",
+             "every Where refusal with the specification."
+             " The class model also has a plain subclass of a non-generic subclass of a generic class and a generic subclass handing its parameters to the base in another order.",
         ref="DESIGN.md 6 (C08)",
         technique="TLA+ typing rules over a class model; TLC-enumerated well-typed chains rendered to real generated "
                   "classes; TLC trace validation of observed item types"),
@@ -149,7 +161,8 @@ CHECKS = {
              "TLC (TraceTyped.JudgeCallbacks) decides: fired multiset = TypeFollow.PlannedPairs, class before method per "
              "site, nothing fired for absent sites or the decoy class, each callback's MetaData on the source chain "
              "upstream of the operator whose lambda holds the site, the emitted call is the rewritten one ([param] "
-             "removed, parameters by value).",
+             "removed, parameters by value)."
+             " Case dimension inh: the receiver's class inherits the called method / property from a base class while the class-level callback sits on the derived class.",
         ref="DESIGN.md 6 (C09)",
         technique="TLC-enumerated placements x contexts rendered to real generated classes with logging callbacks; TLC "
                   "trace validation of firing log, metadata placement and emitted call against the callback plan"),
@@ -161,7 +174,8 @@ CHECKS = {
              "GenCtor.tla enumerates field lists x positional / keyword / unknown / surplus / doubly-bound arguments x "
              "dataclass / NamedTuple x direct call / through Select with a real captured class; TLC judges the emitted "
              "dictionary against Python's binding (Passes.CtorDictOK) or demands ValueError for malformed calls; tuple "
-             "targets and async comprehensions must raise ValueError.",
+             "targets and async comprehensions must raise ValueError."
+             " Field lists include a defaulted field in the middle whose default is not a transportable literal (None).",
         ref="DESIGN.md 6 (C06), A.5",
         technique="TLC-generated comprehension programs and constructor cases replayed into the real sugar pass; TLC "
                   "trace validation (semantic equality with Python's comprehension meaning; Python field binding)"),
@@ -172,7 +186,8 @@ CHECKS = {
              "and tree names, a declared default of a typed method, a variable captured by a real lambda). TLC "
              "(TraceEmbed) evaluates the literal found in the emitted query (Embed.LitEval) and compares it with the "
              "value (same type tag), requires literal node kinds only, and demands ValueError for non-transportable "
-             "values inside lambdas.",
+             "values inside lambdas."
+             " File and tree names are exercised with every scalar type, not only str.",
         ref="DESIGN.md 6 (C13)",
         technique="TLC-enumerated values x API entry points; TLC trace validation of LitEval(literal node) = value"),
     "C05": dict(
@@ -182,7 +197,8 @@ CHECKS = {
              "enumerates queries calling them (positional / keyword / re-ordered / defaulted, arguments over binders named "
              "like the helpers' own parameters and inner binders); they are rendered into modules with the real defs and "
              "real lambdas, run through the real capture + inlining code, and TLC judges the emitted query: compiles, "
-             "well-scoped (helpers may stay as calls by name) and Eval(emitted) = Eval(original) on every dataset.",
+             "well-scoped (helpers may stay as calls by name) and Eval(emitted) = Eval(original) on every dataset."
+             " The table has grown to 34 helpers: positional-only / keyword-only parameters, a body that calls a lambda by keyword, a module-level constant of the helper's own module, two lambdas from one multi-line list literal, same-named functions from one factory.",
         ref="DESIGN.md 6 (C05)",
         technique="helper table in the TLA+ semantics; TLC-generated call sites rendered as real Python lambdas/defs; "
                   "TLC trace validation by semantic equality"),
@@ -194,7 +210,8 @@ CHECKS = {
              "Frozen on the model, exports every history, the harness replays them with real closures (nonlocal / global "
              "/ class / module attribute rebinding) and TLC (TraceCapture) validates after EVERY step that each built "
              "query shows ExpectedLam(shape, snapshot at its Build) - right at the call, unchanged ever after - and that "
-             "the call raised ValueError exactly when a captured value is not transportable.",
+             "the call raised ValueError exactly when a captured value is not transportable."
+             " 23 shapes by now: keyword-only parameters, defaults evaluated in the enclosing scope, comprehension iterables, a default that is itself a lambda.",
         ref="DESIGN.md 6 (C04)",
         technique="TLA+ state machine of name resolution and rebinding; TLC-generated histories replayed on real "
                   "closures; TLC trace validation of every built query after every step"),
@@ -206,7 +223,8 @@ CHECKS = {
              "lambda in the same statement, a preceding statement on the line) and Supported(layout) (DESIGN.md A.3). "
              "TLC enumerates layouts, the harness renders real modules and runs them against the real operators through "
              "a recording proxy, and TLC (TraceSource) decides per call: a recovered lambda is structurally the lambda "
-             "passed at that call (WrongLambda is never allowed), and supported layouts are recovered without error.",
+             "passed at that call (WrongLambda is never allowed), and supported layouts are recovered without error."
+             " Wrap defline: the enclosing function is a one-line def with the statement on its line.",
         ref="DESIGN.md 6 (C03), A.3",
         technique="TLC-enumerated source layouts rendered to real Python modules; TLC trace validation of recovered "
                   "lambda = passed lambda and Supported => recovered",
@@ -221,7 +239,8 @@ CHECKS = {
              "(TracePass.JudgeE2E) decides that the AST the executor received evaluates (Sem.Eval) to what CPython "
              "computed on every dataset, and again after the three backend passes; Sem itself is cross-checked against "
              "CPython on every chain (disagreement = machinery failure, never an alarm). The structural part (each "
-             "operator wraps its parent) is validated on all histories by TraceStreams (clause Wrap).",
+             "operator wraps its parent) is validated on all histories by TraceStreams (clause Wrap)."
+             " Family e2el renders stages that differ only in a constant as ONE lambda expression in a loop (the same code object with different captured values).",
         ref="DESIGN.md 6 (C01), 4.4",
         technique="TLC-generated chains; differential oracle CPython-direct vs TLA+ denotational semantics of the AST "
                   "received by the executor (and after backend passes); TLC trace validation"),
